@@ -1,9 +1,15 @@
 #!/bin/bash
-# tools/seedtest.sh <seed dir name> [property id] : apply a seeded change to /repo, run the quick check, undo it
-S="$1"; P="${2:-${S%%-*}}"
+# tools/seedtest.sh <seed dir name> [property id ...] : run the quick check(s) against /repo's HEAD + a seeded change.
+# The change is applied in a throw-away worktree (VERIF_REPO) and evidence/replays go to a throw-away
+# directory (VERIF_OUT), so /repo, /verif/evidence and /verif/replays are never touched.
+S="$1"; shift; PROPS="${*:-${S%%-*}}"
 cd /verif || exit 2
-git -C /repo diff --quiet || { echo "/repo not clean"; exit 2; }
-git -C /repo apply "/verif/seeded/$S/patch.diff" || { echo "patch does not apply"; exit 2; }
-./check "$P" --tier quick; rc=$?
-git -C /repo checkout -- . 
-echo "seed $S on $P: rc=$rc"
+W=$(mktemp -d /tmp/seedwt.XXXXXX); O=$(mktemp -d /tmp/seedout.XXXXXX)
+git -C /repo worktree add --detach "$W/r" HEAD >/dev/null 2>&1 || { echo "worktree failed"; exit 2; }
+git -C "$W/r" apply "/verif/seeded/$S/patch.diff" || { echo "patch does not apply"; git -C /repo worktree remove --force "$W/r"; rm -rf "$W" "$O"; exit 2; }
+for P in $PROPS; do
+  VERIF_REPO="$W/r" VERIF_OUT="$O" ./check "$P" --tier quick 2>&1 | grep -a "VIOLATION\|KNOWN-FINDING\|SETUP\|Traceback" | cut -c1-400; rc=${PIPESTATUS[0]}
+  echo "seed $S on $P: rc=$rc"
+  if [ -n "$SEED_KEEP" ]; then mkdir -p /tmp/seedkeep; cp -r "$O/replays" "/tmp/seedkeep/$S-$P" 2>/dev/null; fi
+done
+git -C /repo worktree remove --force "$W/r"; rm -rf "$W" "$O"
